@@ -86,7 +86,7 @@ def guarded_stores(ctx):
             if not (isinstance(tgt.value, ast.Name) and tgt.value.id == 'self') or tgt.attr != '_status':
                 continue
             g = q.guard_texts(st)
-            gs = q.guards(st)
+            gs = q.guards_under_lock(st, 'self._lock')
             if isinstance(val, ast.Constant) and val.value == 'success':
                 ctx.ob(f, st, f.name == 'set_result', "only set_result may store 'success'")
             elif isinstance(val, ast.Constant) and val.value in terminal:
@@ -139,6 +139,20 @@ def status_and_exception_move_together(ctx):
             exc_stores = [(s2, v2) for s2, t2, v2 in _stores(f.node) if t2.attr == '_exception' and _lock_region(s2) is region]
             # same guard context
             exc_stores = [(s2, v2) for s2, v2 in exc_stores if q.guard_texts(s2) == q.guard_texts(st) or not q.guard_texts(s2)]
+            # exception safety: nothing that can raise between the first and the last state store of the transition
+            blk_stores = sorted([s2 for s2, t2, v2 in _stores(f.node) if t2.attr in STATE_ATTRS and _lock_region(s2) is region
+                                 and (q.guard_texts(s2) == q.guard_texts(st))], key=lambda n: n.lineno)
+            if len(blk_stores) >= 2:
+                first, last = blk_stores[0], blk_stores[-1]
+                risky = []
+                for n2 in ast.walk(region):
+                    if isinstance(n2, ast.stmt) and first.lineno < n2.lineno <= last.lineno and n2 is not first:
+                        for c2 in ast.walk(n2):
+                            if isinstance(c2, ast.Call) and not (dotted(c2.func) or '').startswith('logger.') and (dotted(c2.func) or '') != 'self.done':
+                                risky.append(c2)
+                ctx.ob(f, f'{f.name}: state stores {[norm(x.targets[0]) for x in blk_stores]} with nothing that can raise in between', not risky,
+                       'a call that raises between the stores leaves status and exception inconsistent (e.g. cancelled without an exception: result() returns None): '
+                       + ', '.join(short(c2, 40) for c2 in risky[:2]))
             if val.value == 'success':
                 ok = any(isinstance(v2, ast.Constant) and v2.value is None for _, v2 in exc_stores)
                 ctx.ob(f, st, ok, "storing 'success' must clear _exception in the same lock region")
